@@ -15,6 +15,7 @@ CONSTANTS
     BoolOn = {}
     IteOn = FALSE
     CallOn = {"sub2"}
+    ScopeModes = {"plain"}
     CallModes = {"pos"}
     AugOn = {}
     PassOn = FALSE
